@@ -297,6 +297,10 @@ def monitor_case(ops, obs, which):
                     V("C14", "unchecked-put-panics", f"{ops[i].strip()} panicked with {bc_ - bl_} bytes of room (needs {leb_len(t[2], int(t[3]))})", i)
             if not (t[0] == "set_len") and not unchecked_ok and not (t[0] == "wres" and r.startswith("panic") and fstate.get("ro_state") and not fstate["closed"]):
                 V("C04", "panic", f"{ops[i].strip()} -> {r}", i)
+                if t[0] in ("rd", "rd_var", "slices"):
+                    V("C15", "reader-crashes", f"{ops[i].strip()} -> {r} (a reader returns the value or OutOfBounds)", i)
+                if t[0] == "checksum":
+                    V("C19", "checksum-crashes", f"{ops[i].strip()} -> {r}", i)
                 if t[0] in BUF_OPS:
                     V("C14", "buffer-op-panics", f"{ops[i].strip()} -> {r} (a buffer operation either stores the value or fails with InsufficientBuffer)", i)
                 if t[0].startswith("alloc_") and fstate.get("truncated"):
